@@ -103,6 +103,49 @@ def donor(fa, kind, codec):
     return _DONORS[k]
 
 
+def library_state():
+    """What the writer-side modules hold at module level in mutable containers and function caches: part of the state key,
+    so that two histories are merged only if the LIBRARY is in the same state too (a cache filled by an earlier append is a
+    difference).  On the unchanged tree this is constant."""
+    import sys
+
+    out = []
+    for mname in ("fastavro._write_py", "fastavro._write_common", "fastavro._read_py", "fastavro._read_common", "fastavro._schema_py", "fastavro._schema_common",
+                  "fastavro._validation_py", "fastavro.io.binary_encoder", "fastavro.io.binary_decoder"):
+        m = sys.modules.get(mname)
+        if m is None:
+            continue
+        for attr, v in vars(m).items():
+            if attr.startswith("__"):
+                continue
+            if isinstance(v, (dict, list, set, bytearray)):
+                try:
+                    out.append((mname, attr, len(v), repr(sorted(map(repr, v)))[:300] if not isinstance(v, bytearray) else bytes(v[:64])))
+                except Exception:
+                    out.append((mname, attr, len(v)))
+            elif hasattr(v, "cache_info") and callable(getattr(v, "cache_info", None)):
+                try:
+                    out.append((mname, attr, tuple(v.cache_info())[2:]))
+                except Exception:
+                    pass
+    return out
+
+
+_PROCESS_DIR = []
+
+
+def _process_dir():
+    if not _PROCESS_DIR:
+        import atexit
+        import shutil
+        import tempfile
+
+        d = tempfile.mkdtemp(prefix="verif-c07-")
+        atexit.register(shutil.rmtree, d, True)
+        _PROCESS_DIR.append(d)
+    return _PROCESS_DIR[0]
+
+
 class FaultyStream:
     """The output stream as the Writer sees it: everything is passed through, except that write() can be armed to fail once
     (a full disk, a dropped connection) before any byte of that call is taken."""
@@ -142,10 +185,10 @@ class World:
         self.interval = {"one": 1, "mid": 24, "huge": 10 ** 9}[iv]
         self.marker = cont.sync_marker()
         if self.on_file:
-            import tempfile
-
-            self._dir = tempfile.mkdtemp(prefix="verif-c07-")
-            self.path = os.path.join(self._dir, "f.avro")
+            # one path per worker process and configuration, used again by every history (as a real job re-creates the
+            # same output path): whatever the library remembers about a PATH meets the next file written there
+            self._dir = _process_dir()
+            self.path = os.path.join(self._dir, "f-%s-%s-%s.avro" % (self.codec, iv, int(bool(self.validator))))
             self.fo = open(self.path, "w+b")
         else:
             self.fo = io.BytesIO()
@@ -290,12 +333,7 @@ class World:
 
     def close(self):
         if self.on_file:
-            import shutil
-
-            try:
-                self.fo.close()
-            finally:
-                shutil.rmtree(self._dir, ignore_errors=True)
+            self.fo.close()
 
     # ---- observations
     def pending(self):
@@ -307,7 +345,7 @@ class World:
         return key((self.contents(), self.fo.tell(), self.pending(), w.io._fo.tell(), w.block_count, [repr(m) for m in self.model], self.counter,
                     getattr(w.block_writer, "__name__", repr(w.block_writer)), w.sync_marker, w.sync_interval, w.compression_level,
                     bool(w.validate_fn), repr(sorted((k, v) for k, v in w.schema.items() if not k.startswith("__")) if isinstance(w.schema, dict) else w.schema),
-                    sorted(w._named_schemas), repr(sorted(w.options.items()))))
+                    sorted(w._named_schemas), repr(sorted(w.options.items())), library_state()))
 
     def check_pending(self):
         buf = self.pending()
